@@ -391,8 +391,9 @@ class HistoryRunner:
 
     def do_cmd(self, kind, targets, cwd):
         m, disk = self.m, self.disk
-        if not os.path.isdir(os.path.join(disk.root, ".redo")):
+        if not os.path.isdir(os.path.join(disk.root, ".redo")) and not getattr(self, "_allow_first_cwd", False):
             cwd = ""   # the first command decides where .redo lives
+        self._allow_first_cwd = False
         if cwd and cwd in getattr(m, "missing_dirs", ()):
             cwd = ""   # nobody can stand in a directory that was removed
         if kind == "redo" and len(targets) > 1:
